@@ -169,6 +169,16 @@ class Driver:
 
 # --------------------------------------------------------------------------- verdict plumbing
 
+class _Skip:
+    """returned by Check.model_outcome for a case that is judged by the direct oracle only (e.g. an input too
+    large to ship through the JSON protocol): the case is not counted as compared with the model"""
+    def __repr__(self):
+        return 'SKIP_MODEL'
+
+
+SKIP_MODEL = _Skip()
+
+
 class Violation:
     def __init__(self, key, what, case, expected=None, actual=None, source='oracle'):
         self.key, self.what, self.case = key, what, case
@@ -390,6 +400,7 @@ class Check:
                 oracle_viol.append(v)
         disagreements = []
         compared = 0
+        oracle_only = 0
         if self.driver and driver_ok:
             reqs, spans = [], []
             for case in cases:
@@ -404,12 +415,16 @@ class Check:
                     print(f'check {pid} broken: driver protocol error {bad[0]}')
                     return 2
                 m = self.model_outcome(case, rep)
+                if m is SKIP_MODEL:
+                    oracle_only += 1
+                    continue
                 compared += 1
                 if not self.equal(r, m):
                     disagreements.append((case, r, m))
         elif self.driver:
             report['broken'].append(f'driver {self.driver} does not build')
         self.extra_checks(rng, tier, report)
+        report['extra']['oracle_only_cases'] = oracle_only
 
         # 5. verdict
         violations = list(report['violations']) + oracle_viol
